@@ -28,13 +28,14 @@ type Chan struct {
 
 // Proc is one goroutine of the program, started with a go statement.
 type Proc struct {
-	Role string `json:"role"` // src | xf
+	Role string `json:"role"` // src | xf | wk (fan-out worker, see fanout_test.go)
 	// src: item i is  int: i+a   float: i+a+0.75   str: "s"+(i+a)
 	Src string `json:"src,omitempty"`
 	N   int    `json:"n,omitempty"`
 	// xf: out <- g(v) for every v received
 	G    string `json:"g,omitempty"`    // id | add | mul | half | addf | str | tag
-	Recv string `json:"recv,omitempty"` // forin | ok2 | expr | relay
+	Recv string `json:"recv,omitempty"` // forin | ok2 | expr | relay | restart (xf); forin | ok2 | expr | cnt2 | cntx (wk)
+	M    int    `json:"m,omitempty"`    // restart: the for-in is left by break after M items and started again
 	A    int64  `json:"a"`              // parameter `a`, passed by value and changed by the caller right after go
 
 	Start    string `json:"start"` // named | var | lit | item | member
@@ -52,9 +53,21 @@ type Proc struct {
 
 // Cons is the final consumer (the main script goroutine).
 type Cons struct {
-	Recv    string `json:"recv"`    // forin | ok2 | expr | counted
+	Recv    string `json:"recv"`    // forin | ok2 | expr | counted | early
 	Collect string `json:"collect"` // list | out
 	Y       int    `json:"y,omitempty"`
+	Early   *Early `json:"early,omitempty"`
+}
+
+// Early describes a consumer that leaves its `for v in ch` early and then goes
+// on reading the same channel: R times a for-in that is left after M items by
+// break / return from a function holding the loop / throw caught outside the
+// loop, then a final loop of style Then until the channel is closed.
+type Early struct {
+	M    int    `json:"m"`
+	R    int    `json:"r"`
+	How  string `json:"how"`  // break | return | throw
+	Then string `json:"then"` // forin | ok2 | expr
 }
 
 // Post is an operation on a closed and drained channel, done by the main
@@ -75,6 +88,10 @@ type Case struct {
 	Cons    Cons   `json:"cons"`
 	Post    []Post `json:"post,omitempty"`
 	Procs   []int  `json:"procs"` // GOMAXPROCS values the program is run under
+	// Prefill: the consumer starts only after every goroutine has finished (all
+	// items fit into the last channel's buffer), so the buffer is certainly full
+	// and the channel already closed when the first receive happens.
+	Prefill bool `json:"prefill,omitempty"`
 }
 
 // ---------------------------------------------------------------------------
@@ -328,8 +345,11 @@ func validate(c Case) (kinds []byte, problem string) {
 	}
 	kinds = append(kinds, k)
 	for j, x := range c.Xfs {
-		if x.Role != "xf" || !oneOf(x.Recv, "forin", "ok2", "expr", "relay") {
+		if x.Role != "xf" || !oneOf(x.Recv, "forin", "ok2", "expr", "relay", "restart") {
 			return nil, "xf"
+		}
+		if x.Recv == "restart" && (x.M < 1 || x.M > 250) {
+			return nil, "restart count"
 		}
 		if x.Recv == "relay" && x.G != "id" {
 			return nil, "relay must be identity"
@@ -355,8 +375,16 @@ func validate(c Case) (kinds []byte, problem string) {
 			return nil, "a"
 		}
 	}
-	if !oneOf(c.Cons.Recv, "forin", "ok2", "expr", "counted") || !oneOf(c.Cons.Collect, "list", "out") || c.Cons.Y < 0 || c.Cons.Y > 3 {
+	if !oneOf(c.Cons.Recv, "forin", "ok2", "expr", "counted", "early") || !oneOf(c.Cons.Collect, "list", "out") || c.Cons.Y < 0 || c.Cons.Y > 3 {
 		return nil, "cons"
+	}
+	if e := c.Cons.Early; (c.Cons.Recv == "early") != (e != nil) {
+		return nil, "early"
+	} else if e != nil && (e.M < 1 || e.M > 250 || e.R < 1 || e.R > 3 || !oneOf(e.How, "break", "return", "throw") || !oneOf(e.Then, "forin", "ok2", "expr")) {
+		return nil, "early"
+	}
+	if c.Prefill && total > c.Chans[len(c.Chans)-1].Buf {
+		return nil, "prefill does not fit"
 	}
 	if len(c.Post) > 8 {
 		return nil, "post"
@@ -398,7 +426,19 @@ func expect(c Case) [][]mv {
 // of callExpr the start goes through.
 func (p Proc) arity(fanin bool) int {
 	n := 0
-	if p.Role == "src" {
+	if p.Role == "wk" {
+		// fanin here means: forwards to a results channel and signals a worker-join channel
+		n = 1 // cap
+		if !p.GIn {
+			n++
+		}
+		if fanin && !p.GOut {
+			n++
+		}
+		if fanin && !p.GJoin {
+			n++
+		}
+	} else if p.Role == "src" {
 		n = 2 // n, a
 		if !p.GOut {
 			n++
@@ -471,7 +511,7 @@ func render(c Case) string {
 	}
 	k := 0
 	for _, s := range c.Srcs {
-		renderProc(&b, k, s, "", "c0", fanin)
+		renderProc(&b, k, s, renderCtx{out: "c0", join: fanin})
 		k++
 	}
 	if fanin {
@@ -480,7 +520,7 @@ func render(c Case) string {
 		k++
 	}
 	for j, x := range c.Xfs {
-		renderProc(&b, k, x, fmt.Sprintf("c%d", j), fmt.Sprintf("c%d", j+1), fanin)
+		renderProc(&b, k, x, renderCtx{in: fmt.Sprintf("c%d", j), out: fmt.Sprintf("c%d", j+1)})
 		k++
 	}
 	goroutines := k
@@ -494,8 +534,29 @@ func render(c Case) string {
 		collect = "out(mv)"
 	}
 	b.WriteString("res = []\nmv = \"S\"\n")
+	join := fmt.Sprintf("for mj = 0; mj < %d; mj++ {\n\t<-dn\n}\n", goroutines)
+	if c.Prefill {
+		b.WriteString(join)
+	}
 	body := "\ttick()\n\t" + collect + "\n" + yieldStmt("\t", c.Cons.Y)
-	switch c.Cons.Recv {
+	recv := c.Cons.Recv
+	if e := c.Cons.Early; recv == "early" && e != nil {
+		leave := "break"
+		if e.How == "throw" {
+			leave = "throw \"stop\""
+		}
+		seg := fmt.Sprintf("\tec = 0\n\tfor mv in %s {\n%s\t\tec++\n\t\tif ec >= %d {\n\t\t\t%s\n\t\t}\n\t}\n", last, indent(body), e.M, leave)
+		switch e.How {
+		case "throw":
+			seg = "\ttry {\n" + indent(seg) + "\t} catch ee {\n\t}\n"
+		case "return":
+			fmt.Fprintf(&b, "func econs(ch, m) {\n\tek = 0\n\tfor ev in ch {\n%s\t\tek++\n\t\tif ek >= m {\n\t\t\treturn ek\n\t\t}\n\t}\n\treturn ek\n}\n", indent(strings.ReplaceAll(body, "mv", "ev")))
+			seg = fmt.Sprintf("\tem = %d\n\tecons(%s, em)\n", e.M, last)
+		}
+		fmt.Fprintf(&b, "for er = 0; er < %d; er++ {\n%s}\n", e.R, seg)
+		recv = e.Then
+	}
+	switch recv {
 	case "forin":
 		fmt.Fprintf(&b, "for mv in %s {\n%s}\n", last, body)
 	case "ok2":
@@ -506,10 +567,12 @@ func render(c Case) string {
 		fmt.Fprintf(&b, "for mj = 0; mj < %d; mj++ {\n\tmv = <-%s\n%s}\n", total, last, body)
 	}
 	b.WriteString("lastv = nil\n")
-	if c.Cons.Recv == "ok2" {
+	if recv == "ok2" {
 		b.WriteString("lastv = mv\n")
 	}
-	fmt.Fprintf(&b, "for mj = 0; mj < %d; mj++ {\n\t<-dn\n}\n", goroutines)
+	if !c.Prefill {
+		b.WriteString(join)
+	}
 	b.WriteString("obs = []\n")
 	for i, p := range c.Post {
 		ch := fmt.Sprintf("c%d", p.Ch)
@@ -530,7 +593,23 @@ func render(c Case) string {
 	return b.String()
 }
 
-func renderProc(b *strings.Builder, k int, p Proc, in, out string, fanin bool) {
+func indent(s string) string {
+	if s == "" {
+		return s
+	}
+	return "\t" + strings.ReplaceAll(strings.TrimSuffix(s, "\n"), "\n", "\n\t") + "\n"
+}
+
+// renderCtx names the channels a goroutine works on.
+type renderCtx struct {
+	in, out string
+	join    bool // src: signal the join channel instead of closing out; wk: signal the worker-join channel wj
+	mark    bool // src: call markclosed() right before close(out)
+	fwdOut  bool // wk: forward to the host function out() instead of a channel
+}
+
+func renderProc(b *strings.Builder, k int, p Proc, rc renderCtx) {
+	in, out, fanin := rc.in, rc.out, rc.join
 	var params, args []string
 	add := func(param, arg string) {
 		params = append(params, param)
@@ -546,7 +625,28 @@ func renderProc(b *strings.Builder, k int, p Proc, in, out string, fanin bool) {
 	var pre, post string // caller: before go / right after go
 	pre = fmt.Sprintf("a%d = %d\n", k, p.A)
 	post = fmt.Sprintf("a%d = a%d + 100\n", k, k)
-	if p.Role == "src" {
+	if p.Role == "wk" {
+		pre = fmt.Sprintf("n%d = %d\n", k, p.N)
+		post = fmt.Sprintf("n%d = 0\n", k)
+		pj = "wj"
+		if !p.GIn {
+			ci = "ci"
+			add("ci", in)
+		}
+		if !rc.fwdOut && !p.GOut {
+			co = "co"
+			add("co", out)
+		}
+		add("cap", val(fmt.Sprintf("n%d", k)))
+		if !p.GDone {
+			pd = "pd"
+			add("pd", "dn")
+		}
+		if !rc.fwdOut && !p.GJoin {
+			pj = "pj"
+			add("pj", "wj")
+		}
+	} else if p.Role == "src" {
 		pre += fmt.Sprintf("n%d = %d\n", k, p.N)
 		post += fmt.Sprintf("n%d = 0\n", k)
 		if !p.GOut {
@@ -597,7 +697,32 @@ func renderProc(b *strings.Builder, k int, p Proc, in, out string, fanin bool) {
 	var body strings.Builder
 	body.WriteString("\ttry {\n")
 	body.WriteString(yieldStmt("\t\t", p.Y[0]))
-	if p.Role == "src" {
+	if p.Role == "wk" {
+		v := fmt.Sprintf("v%d", k)
+		fwd := fmt.Sprintf("%s <- %s", co, v)
+		if rc.fwdOut {
+			fwd = "out(" + v + ")"
+		}
+		inner := "\t\t\ttick()\n" + yieldStmt("\t\t\t", p.Y[1]) + "\t\t\t" + fwd + "\n" + yieldStmt("\t\t\t", p.Y[2])
+		rx2 := fmt.Sprintf("\t\t\t%s, ok%d = <-%s\n\t\t\tif !ok%d {\n\t\t\t\tbreak\n\t\t\t}\n", v, k, ci, k)
+		rxe := fmt.Sprintf("\t\t\t%s = (<-%s)\n\t\t\tif %s == nil {\n\t\t\t\tgotnil(%d)\n\t\t\t\tbreak\n\t\t\t}\n", v, ci, v, k)
+		counted := fmt.Sprintf("\t\tfor j%d = 0; j%d < cap; j%d++ {\n", k, k, k)
+		switch p.Recv {
+		case "forin":
+			fmt.Fprintf(&body, "\t\tfor %s in %s {\n%s\t\t}\n", v, ci, inner)
+		case "ok2":
+			fmt.Fprintf(&body, "\t\tfor {\n%s%s\t\t}\n", rx2, inner)
+		case "expr":
+			fmt.Fprintf(&body, "\t\tfor {\n%s%s\t\t}\n", rxe, inner)
+		case "cnt2":
+			body.WriteString(counted + rx2 + inner + "\t\t}\n")
+		case "cntx":
+			body.WriteString(counted + rxe + inner + "\t\t}\n")
+		}
+		if !rc.fwdOut {
+			fmt.Fprintf(&body, "\t\t%s <- 1\n", pj)
+		}
+	} else if p.Role == "src" {
 		var e string
 		switch p.Src {
 		case "int":
@@ -611,6 +736,9 @@ func renderProc(b *strings.Builder, k int, p Proc, in, out string, fanin bool) {
 		if fanin {
 			fmt.Fprintf(&body, "\t\t%s <- 1\n", pj)
 		} else {
+			if rc.mark {
+				body.WriteString("\t\tmarkclosed()\n")
+			}
 			fmt.Fprintf(&body, "\t\tclose(%s)\n", co)
 		}
 	} else {
@@ -640,6 +768,8 @@ func renderProc(b *strings.Builder, k int, p Proc, in, out string, fanin bool) {
 			fmt.Fprintf(&body, "\t\tfor {\n\t\t\t%s, ok%d = <-%s\n\t\t\tif !ok%d {\n\t\t\t\tbreak\n\t\t\t}\n%s\t\t}\n", v, k, ci, k, inner)
 		case "expr":
 			fmt.Fprintf(&body, "\t\tfor {\n\t\t\t%s = (<-%s)\n\t\t\tif %s == nil {\n\t\t\t\tbreak\n\t\t\t}\n%s\t\t}\n", v, ci, v, inner)
+		case "restart":
+			fmt.Fprintf(&body, "\t\tfor {\n\t\t\tk%d = 0\n\t\t\tfin%d = true\n\t\t\tfor %s in %s {\n%s\t\t\t\tk%d++\n\t\t\t\tif k%d >= %d {\n\t\t\t\t\tfin%d = false\n\t\t\t\t\tbreak\n\t\t\t\t}\n\t\t\t}\n\t\t\tif fin%d {\n\t\t\t\tbreak\n\t\t\t}\n\t\t}\n", k, k, v, ci, indent(inner), k, k, p.M, k, k)
 		case "relay":
 			fmt.Fprintf(&body, "\t\tfor j%d = 0; j%d < cnt; j%d++ {\n%s\t\t\t%s <- <-%s\n%s\t\t}\n", k, k, k, yieldStmt("\t\t\t", p.Y[1]), co, ci, yieldStmt("\t\t\t", p.Y[2]))
 		}
@@ -689,6 +819,14 @@ func genN(t *rapid.T, label string, max int) int {
 	}
 }
 
+// genM draws after how many items a for-in is left early (1 and 2 are common).
+func genM(t *rapid.T, label string) int {
+	if rapid.IntRange(0, 2).Draw(t, label+"_small") != 0 {
+		return rapid.IntRange(1, 2).Draw(t, label)
+	}
+	return rapid.IntRange(1, 40).Draw(t, label)
+}
+
 func genYield(t *rapid.T, label string) int {
 	if rapid.IntRange(0, 2).Draw(t, label+"?") != 0 {
 		return 0
@@ -727,7 +865,7 @@ func genLaunch(t *rapid.T, p *Proc, fanin bool) {
 	if p.Role == "src" {
 		p.GIn = false
 	}
-	if p.Role != "src" || !fanin {
+	if p.Role == "xf" || !fanin {
 		p.GJoin = false
 	}
 	p.ArgExpr = rapid.IntRange(0, 3).Draw(t, "argexpr") == 0
@@ -811,11 +949,14 @@ func genCase(t *rapid.T) Case {
 		default:
 			x.A = rapid.Int64Range(-5, 5).Draw(t, "a")
 		}
-		recvs := []string{"forin", "forin", "ok2", "expr"}
+		recvs := []string{"forin", "forin", "ok2", "expr", "restart", "restart"}
 		if x.G == "id" {
 			recvs = append(recvs, "relay", "relay")
 		}
 		x.Recv = rapid.SampledFrom(recvs).Draw(t, "recv")
+		if x.Recv == "restart" {
+			x.M = genM(t, "restart_m")
+		}
 		for i := range x.Y {
 			x.Y[i] = genYield(t, "y")
 		}
@@ -833,9 +974,31 @@ func genCase(t *rapid.T) Case {
 	}
 	c.DoneBuf = rapid.IntRange(0, goroutines).Draw(t, "donebuf")
 	c.Cons = Cons{
-		Recv:    rapid.SampledFrom([]string{"forin", "forin", "ok2", "ok2", "expr", "counted"}).Draw(t, "crecv"),
+		Recv:    rapid.SampledFrom([]string{"forin", "forin", "ok2", "ok2", "expr", "counted", "early", "early", "early", "early"}).Draw(t, "crecv"),
 		Collect: rapid.SampledFrom([]string{"list", "list", "out"}).Draw(t, "collect"),
 		Y:       genYield(t, "cy"),
+	}
+	if c.Cons.Recv == "early" {
+		c.Cons.Early = &Early{
+			M:    genM(t, "early_m"),
+			R:    rapid.SampledFrom([]int{1, 1, 2, 3}).Draw(t, "early_r"),
+			How:  rapid.SampledFrom([]string{"break", "break", "return", "throw"}).Draw(t, "early_how"),
+			Then: rapid.SampledFrom([]string{"forin", "forin", "ok2", "expr"}).Draw(t, "early_then"),
+		}
+	}
+	if rapid.IntRange(0, 3).Draw(t, "prefill") == 0 {
+		// everything fits into the last buffer: producer side finishes before the consumer starts
+		c.Prefill = true
+		lastCh := &c.Chans[len(c.Chans)-1]
+		lastCh.Buf = rapid.IntRange(1, 3).Draw(t, "prefill_buf")
+		room := lastCh.Buf
+		for i := range c.Srcs {
+			c.Srcs[i].N = rapid.IntRange(0, room).Draw(t, "prefill_n")
+			if i == len(c.Srcs)-1 && rapid.IntRange(0, 2).Draw(t, "prefill_full") != 0 {
+				c.Srcs[i].N = room
+			}
+			room -= c.Srcs[i].N
+		}
 	}
 	np := rapid.IntRange(0, 4).Draw(t, "npost")
 	for i := 0; i < np; i++ {
@@ -1000,9 +1163,15 @@ func judge(c Case, exp [][]mv, r *runResult) *h.Fail {
 	if cl, detail := judgeDelivery(c, exp, got); cl != "" {
 		return h.Failf("C16|"+cl+"|"+v, "%s\nsource:\n%s", detail, src)
 	}
-	if c.Cons.Recv == "ok2" {
+	finalRecv, finalItems := c.Cons.Recv, len(got)
+	if e := c.Cons.Early; e != nil {
+		// the early segments take exactly min(R*M, total) items (delivery was just verified)
+		finalRecv = e.Then
+		finalItems = len(got) - min(e.R*e.M, len(got))
+	}
+	if finalRecv == "ok2" {
 		want := mv{k: 's', s: "S"}
-		if len(got) > 0 {
+		if finalItems > 0 {
 			// the variable keeps the last value that was really received
 			want = got[len(got)-1]
 		}
@@ -1140,6 +1309,31 @@ func classify(c Case, kinds []byte, o *h.Obs) {
 		}
 	}
 	o.Class("consumer_" + c.Cons.Recv)
+	if e := c.Cons.Early; e != nil {
+		o.Class("early_leave_by_" + e.How)
+		o.Class("early_then_" + e.Then)
+		o.Class("early_segments_%d", e.R)
+		switch {
+		case e.M == 1:
+			o.Class("early_m_1")
+		case e.M == 2:
+			o.Class("early_m_2")
+		default:
+			o.Class("early_m_3to40")
+		}
+		if e.R*e.M < total {
+			o.Class("early_exit_really_leaves_items_behind")
+		}
+		if c.Chans[len(c.Chans)-1].Buf >= 2 {
+			o.Class("early_on_channel_with_buffer_ge2")
+		}
+	}
+	if c.Prefill {
+		o.Class("prefilled_and_closed_before_consumer_starts")
+		if c.Cons.Early != nil && total >= 2 {
+			o.Class("early_on_prefilled_buffer_with_ge2_items")
+		}
+	}
 	o.Class("collect_" + c.Cons.Collect)
 	for _, p := range c.Post {
 		o.Class("after_close_" + p.Op)
@@ -1220,4 +1414,6 @@ func TestC16(t *testing.T) {
 	c.Rule("closed: one goroutine, one channel, generated send/receive/close sequence that never blocks, modelled as a FIFO with a closed flag; non-trivial = at least one operation after close while an item is still buffered or an error-raising operation")
 	h.Run(c, "pipeline", c.N(400, 700), genCase, oracleFor(reps))
 	h.Run(c, "closed", c.N(1500, 20000), genClosed, oracleClosed)
+	c.Rule(fmt.Sprintf("fanout: 1..3 sources (200..1000 items in all) into one channel with buffer 1..3, 2..4 worker goroutines consuming it concurrently (for-in / two-value loop / receive-expression loop until nil / capped two-value / capped receive-expression; at least one worker ends only on close), forwarding to a results channel or host out(); GOMAXPROCS 1,2,16 x %d; non-trivial = items > buffer", reps))
+	h.Run(c, "fanout", c.N(24, 40), genFan, oracleFan(reps))
 }
